@@ -14,7 +14,7 @@ func C02(p *core.Prog, r *core.Report) {
 	r.Rule("FMAP", ruleFmap, 8)
 	r.Rule("FILL", ruleFill, 4)
 	Fmap(p, r, []FmapSpec{{Pkg: gts, Name: "Insert", Inputs: []int{0, 2}}, {Pkg: gts, Name: "Embed", Inputs: []int{0, 2}}})
-	Fill(p, r, []Anchor{{gts, "Joined.Shift"}, {gts, "Ordered.Shift"}, {gts, "Joined.Expand"}, {gts, "Ordered.Expand"}})
+	Fill(p, r, []Anchor{{gts, "Joined.Shift", false}, {gts, "Ordered.Shift", false}, {gts, "Joined.Expand", false}, {gts, "Ordered.Expand", false}})
 	r.NotDecided = append(r.NotDecided, "placement arithmetic of Shift/Expand", "split-versus-extend at the insertion point", "partial markers", "residues of the result")
 }
 
@@ -24,7 +24,7 @@ func C03(p *core.Prog, r *core.Report) {
 	r.Rule("FILL", ruleFill, 3)
 	r.Rule("MUST-PASS", "every non-recursive return of gts.Slice returns a variable whose last assignment is WithTopology(v, Linear)", 2)
 	Fmap(p, r, []FmapSpec{{Pkg: gts, Name: "Delete", Inputs: []int{0}}, {Pkg: gts, Name: "Slice", Inputs: []int{0}}})
-	Fill(p, r, []Anchor{{gts, "Joined.Expand"}, {gts, "Ordered.Expand"}, {gts, "Delete"}})
+	Fill(p, r, []Anchor{{gts, "Joined.Expand", false}, {gts, "Ordered.Expand", false}, {gts, "Delete", false}})
 	MustPassLinear(p, r)
 	r.NotDecided = append(r.NotDecided, "residues removed", "which end becomes partial", "collapse to a between-site", "reference clipping arithmetic", "negative indices and wrap-around")
 }
@@ -34,7 +34,7 @@ func C04(p *core.Prog, r *core.Report) {
 	r.Rule("FMAP", ruleFmap, 3)
 	r.Rule("FILL", ruleFill, 2)
 	Fmap(p, r, []FmapSpec{{Pkg: gts, Name: "Rotate", Inputs: []int{0}}})
-	Fill(p, r, []Anchor{{gts, "Joined.Normalize"}, {gts, "Ordered.Normalize"}})
+	Fill(p, r, []Anchor{{gts, "Joined.Normalize", false}, {gts, "Ordered.Normalize", false}})
 	r.NotDecided = append(r.NotDecided, "modular arithmetic", "origin-spanning split", "additivity laws")
 }
 
@@ -42,7 +42,10 @@ func C04(p *core.Prog, r *core.Report) {
 func C05(p *core.Prog, r *core.Report) {
 	r.Rule("FMAP", ruleFmap, 8)
 	r.Rule("FILL", ruleFill, 6)
-	Fill(p, r, []Anchor{{gts, "Joined.Reverse"}, {gts, "Ordered.Reverse"}, {gts, "Regions.Complement"}, {gts, "Regions.Locate"}, {gts, "Joined.Region"}, {gts, "Ordered.Region"}, {gts, "Complement"}})
+	anchors := []Anchor{{gts, "Joined.Reverse", true}, {gts, "Ordered.Reverse", true}, {gts, "Regions.Complement", true}, {gts, "Regions.Locate", false}, {gts, "Joined.Region", false}, {gts, "Ordered.Region", false}, {gts, "Complement", false}}
+	Fill(p, r, anchors)
+	r.Rule("REVERSE-MAP", "a two-pointer loop that transforms the elements it swaps must run while l <= r (the middle element of an odd-length list needs the transformation too)", 0)
+	ReverseMap(p, r, anchors[:3])
 	Fmap(p, r, []FmapSpec{{Pkg: gts, Name: "Reverse", Inputs: []int{0}}, {Pkg: gts, Name: "Complement", Inputs: []int{0}}, {Pkg: gts, Name: "Concat", Variadic: true}})
 	r.NotDecided = append(r.NotDecided, "coordinate mirroring arithmetic (L-1-x, between-site mapping)", "equality of extracted sequences")
 }
@@ -51,5 +54,11 @@ func C05(p *core.Prog, r *core.Report) {
 func C15(p *core.Prog, r *core.Report) {
 	r.Rule("INPUT-COORD", "in the multi-site edit commands every definition of the locator's argument that reaches the call is the record as scanned ((*Scanner).Value through copies, conversions and slices filled only with scanned records), never the result of an edit operation", 6)
 	InputCoord(p, r, []string{"deleteFunc", "insertFunc", "infixFunc", "splitFunc", "rotateFunc", "extractFunc"})
+	// the region helpers the commands translate sites with
+	r.Rule("FILL", ruleFill, 2)
+	r.Rule("REVERSE-MAP", "a two-pointer loop that transforms the elements it swaps must run while l <= r", 0)
+	regionAnchors := []Anchor{{gts, "Regions.Complement", true}, {gts, "Regions.Locate", false}, {gts, "Regions.Resize", false}}
+	Fill(p, r, regionAnchors)
+	ReverseMap(p, r, regionAnchors[:1])
 	r.NotDecided = append(r.NotDecided, "order of application", "de-duplication and union of regions", "piece boundaries of split", "all value-level behaviour of the commands")
 }
